@@ -2695,8 +2695,70 @@ where
     }
 }
 
+/// code words longer than one and two `usize` words through the *provided* `encode_symbol_suffix` /
+/// `encode_symbol_prefix` (which reverse the code word on a `SmallBitStack`): a stack coder fed by a
+/// codebook that only knows its prefix form must hand the bits back in code-word order, a queue fed
+/// by one that only knows its suffix form in reversed order
+fn oracle_long_codewords<W: BitArray>(rng: &mut Rng, rep: &mut Report) {
+    for len in [0usize, 1, 63, 64, 65, 127, 128, 129, 130, 191, 192, 193, 256, 257, 400] {
+        let bs = rand_bits(rng, len);
+        let desc = format!("bits.stack {:x} | new | via {}", W::BITS, show_bits(&bs));
+        set_case(&desc);
+        rep.eval("C16");
+        rep.count("C16.long_codeword_via_default_method");
+        let r = guarded(|| {
+            let mut c = StackCoder::<W>::new();
+            c.encode_symbol((), OnlyPrefix(&bs)).unwrap();
+            let n = c.len();
+            let mut back = Vec::new();
+            while let Some(b) = c.read_bit().unwrap_infallible() {
+                back.push(b);
+            }
+            (n, back)
+        });
+        match r {
+            Ok((n, back)) => {
+                if n != len || back != bs {
+                    rep.fail("C16", format!("{} | len | drain => len {:x}, bits {} but the code word is {} ({} bits): a stack hands a code word written through the default suffix method back in code-word order", desc, n, show_bits(&back), show_bits(&bs), len));
+                }
+            }
+            Err(class) => rep.fail("C16", format!("{} => {}", desc, class)),
+        }
+        let desc = format!("bits.queue {:x} | new | via {} | todec | drain", W::BITS, show_bits(&bs));
+        set_case(&desc);
+        rep.eval("C16");
+        let r = guarded(|| {
+            let mut c = QueueEncoder::<W>::new();
+            c.encode_symbol((), OnlySuffix(&bs)).unwrap();
+            let mut d = c.into_decoder().unwrap_infallible();
+            let mut back = Vec::new();
+            for _ in 0..len {
+                match d.read_bit().unwrap_infallible() {
+                    Some(b) => back.push(b),
+                    None => break,
+                }
+            }
+            back
+        });
+        match r {
+            Ok(back) => {
+                let want: Vec<bool> = bs.iter().rev().copied().collect();
+                if back != want {
+                    rep.fail("C16", format!("{} => bits {} but the reversed code word is {}", desc, show_bits(&back), show_bits(&want)));
+                }
+            }
+            Err(class) => rep.fail("C16", format!("{} => {}", desc, class)),
+        }
+    }
+}
+
 pub fn oracle(rng: &mut Rng, tier: &str, rep: &mut Report) {
     let thorough = tier == "thorough";
+    for _ in 0..(if thorough { 20 } else { 2 }) {
+        oracle_long_codewords::<u8>(rng, rep);
+        oracle_long_codewords::<u32>(rng, rep);
+        oracle_long_codewords::<u64>(rng, rep);
+    }
     // directed cases first: their replays are the shortest
     let greps = if thorough { 8 } else { 1 };
     let breps = if thorough { 20000 } else { 800 };
